@@ -277,7 +277,15 @@ def r2(cx):
     for w in Q.return_writers(body):
         lab, what = Q.exit_label(body, du, w)
         cx.site('%s: exit %s' % (body.fn, lab))
-        if not (lab == '?pop_front' or lab.startswith('Some(')):
+        none_of_pop = False
+        if lab.startswith('None'):
+            # `let Some(task) = popped else { return None }` is the `?` written out: None only on the None edge of pop_front
+            for org, l2, e in Q.dominating_conditions(F, body, du, w):
+                if org['k'] == 'discr' and l2 == ('variant', 'None'):
+                    s2 = Q.value_source(body, du, {'cp': {'l': org['pl']['l']}})
+                    if s2 is not None and Q.callee_is(s2, [VD + 'pop_front']):
+                        none_of_pop = True
+        if not (lab == '?pop_front' or lab.startswith('Some(') or none_of_pop):
             cx.violation(body.root, 'exit:%s' % lab, 'step returns through %s: it may report "no task" while tasks are '
                          'queued, so run_until_stalled stops with runnable tasks' % what, loc=body.loc(body.term(w)))
         if lab.startswith('Some(') and not body.dominates(pb, w):
@@ -497,7 +505,10 @@ def r5(cx):
         # an Rc rebuilt from the pointer is handed to Task::wake (which queues or releases it)
         for b, t in Q.find_calls(body, ['alloc::rc::Rc::<T>::from_raw']):
             rc = t['dest']['l']
-            users = [u for ub, u in body.calls() if any(Q.operand_local(a) == rc and 'mv' in a for a in u['a'])]
+            # the rebuilt Rc may be bound to a named local first (`let task = Rc::from_raw(..); task.wake()`): follow moves
+            moved = Q.forward_taint(body, {rc}, through_calls=[])
+            users = [u for ub, u in body.calls() if any(Q.operand_local(a) in moved and 'mv' in a for a in u['a'])
+                     and not Q.callee_is(u, ['alloc::rc::Rc::<T>::from_raw'])]
             if not (len(users) == 1 and Q.callee_is(users[0], [WAKE])):
                 cx.violation(body.fn, 'from_raw-not-woken', 'the Rc<Task> rebuilt by from_raw is not moved into Task::wake '
                              '(forgetting it leaks a count, dropping it loses the wake-up)', loc=body.loc(t))
